@@ -196,9 +196,9 @@ func (x *Gen) TrustedBlock() Case {
 		}
 	}
 	c.Seq = seq
-	x.r.Hit("trusted:mark-from=" + source)
-	x.r.Hit("trusted:header=" + target)
-	x.r.Hit(fmt.Sprintf("trusted:%s=%s", c.Cmd, shape))
+	x.hit("trusted:mark-from=" + source)
+	x.hit("trusted:header=" + target)
+	x.hit(fmt.Sprintf("trusted:%s=%s", c.Cmd, shape))
 	return c
 }
 
